@@ -303,10 +303,10 @@ func verifyMerkleProof(
 	}
 
 	sp := bscProof.StorageProof[0]
-	storageKey := crypto.Keccak256(common.HexToHash(sp.Key).Bytes())
-	if !bytes.Equal(storageKey, proofKey) {
-		return fmt.Errorf("verifyMerkleProof,storageKey is error, storage key: %s, Key path: %s", storageKey, proofKey)
+	if !bytes.Equal(common.HexToHash(sp.Key).Bytes(), proofKey) {
+		return fmt.Errorf("verifyMerkleProof,storageKey is error, storage key: %s, Key path: %s", common.HexToHash(sp.Key), proofKey)
 	}
+	storageKey := crypto.Keccak256(common.HexToHash(sp.Key).Bytes())
 	for _, prf := range sp.Proof {
 		_ = nodeList.Put(nil, common.FromHex(prf))
 	}
